@@ -13,7 +13,7 @@ PROPS = {
     "C09": {
         "case_sets": ["lex"],
         "ops": ["SCAN", "RESCAN", "NUM"],
-        "lean_targets": ["PqlModel.Props.C09", "PqlModel.Props.C09b"],
+        "lean_targets": ["PqlModel.Props.C09", "PqlModel.Props.C09b", "PqlModel.Props.C09Gaps"],
         "facts": ["keywords", "isAlphaRanges", "isDigitRanges", "isHexDigitRanges", "tokenKinds"],
         "rule": "SCAN: every string over the 25-symbol scanner alphabet up to length 3 (quick) / 4 (thorough), "
                 "plus random concatenations of lexeme fragments and raw bytes; non-trivial = distinct source "
@@ -53,7 +53,7 @@ PROPS = {
         "case_sets": ["parse"],
         "ops": ["PARSE", "PARSEV", "LINECOL"],
         "oracle_clauses": [r"c10-.*", r"unreadable-.*"],
-        "lean_targets": ["PqlModel.Props.C10", "PqlModel.Props.C08Full"],
+        "lean_targets": ["PqlModel.Props.C10", "PqlModel.Props.C08Full", "PqlModel.Props.C10Linecol", "PqlModel.Props.C10Failed"],
         "facts": ["structFields", "spanUnion"],
         "rule": "same sources as C07 in multi-line / tab / comment / non-ASCII layouts; every span field and every Span() "
                 "result of every node (reflection) is compared with the model and checked against the token positions; "
@@ -72,7 +72,7 @@ PROPS = {
         "case_sets": ["parse", "compile", "walk", "lex"],
         "ops": ["PARSE", "PARSEV", "SCAN", "SPLIT", "WALK", "COMPILE", "COMPILESEQ"],
         "oracle_clauses": [r"c12-.*"],
-        "lean_targets": ["PqlModel.Props.C12", "PqlModel.Props.C12Fuel"],
+        "lean_targets": ["PqlModel.Props.C12", "PqlModel.Props.C12Fuel", "PqlModel.Props.C13Exact"],
         "facts": [],
         "rule": "every case of the lexer, parser and walk sets runs under recover and a 3 s watchdog, including pathological "
                 "nesting of brackets, calls, indexes, signs, joins and error cascades up to a few KiB; non-trivial = distinct input",
@@ -125,7 +125,7 @@ PROPS = {
         "case_sets": ["compile"],
         "ops": ["COMPILE"],
         "oracle_clauses": [r"c13-.*", r"unreadable-.*"],
-        "lean_targets": ["PqlModel.Props.C13"],
+        "lean_targets": ["PqlModel.Props.C13", "PqlModel.Props.C13Exact"],
         "facts": ["writerArityGuard", "knownFunctions", "joinTypes"],
         "rule": "COMPILE on generated programs, the same with a token corrupted, and a corpus of every documented misuse; the oracle "
                 "evaluates the Misuse predicate on the parsed program and requires error iff (parse error or misuse); "
